@@ -12,7 +12,9 @@ from ..alphabet import session_messages, simple_update
 PROP = 'C16'
 METHODS = ('GET', 'HEAD', 'POST', 'PUT', 'DELETE', 'PATCH', 'OPTIONS')
 CREDS = {'none': None, 'wrong-user': 'root:admin', 'wrong-password': 'admin:nimda', 'empty-password': 'admin:',
-         'right': 'admin:admin'}
+         'unknown-user-empty-password': 'nobody:', 'empty-user-empty-password': ':', 'empty-user-right-password': ':admin',
+         'case-changed-user': 'Admin:admin', 'case-changed-password': 'admin:Admin', 'password-prefix': 'admin:admi',
+         'password-with-suffix': 'admin:admin ', 'right': 'admin:admin'}
 M = session_messages()
 STATES = {
     'no-protocol': [],
@@ -205,8 +207,13 @@ def task_send(args):
     classes = set()
     cfg = {'local_as': 65001, 'remote_as': 65001 if ibgp else 65002}
     msgs = session_messages(remote_as=cfg['remote_as'])
-    for attr, nlri, wd in chunk:
-        w = W.replay(cfg, STATES['established'], msgs)
+    for idx, (attr, nlri, wd) in enumerate(chunk):
+        # every third case after a session flap: "the current connection" is then the second one
+        hist = STATES['established'] if idx % 3 else STATES['established'] + [
+            ('REST', 'warmup'), ('PEER_CLOSE', 0), ('TICK', 0), ('CONN_OK', 0), ('RX', 0, 'OPEN_OK'), ('RX', 0, 'KA')]
+        msgs = dict(msgs)
+        msgs['@warmup'] = ('POST', '/v1/peer/<ip>/send/update', {'attr': {'1': 0, '2': [], '3': '10.0.0.1'}, 'nlri': ['10.99.0.0/16']})
+        w = W.replay(cfg, hist, msgs)
         t = w.readable()[0].transport
         before = len(t.writes)
         body = {'attr': attr, 'nlri': nlri, 'withdraw': wd}
@@ -215,6 +222,7 @@ def task_send(args):
         new = [d for _, d in t.writes[before:]]
         other = [e for e in obs if e[0] in ('lose', 'connect', 'abort') or (e[0] == 'write' and e[1] != t.tid)]
         cls = ('attrs' if attr else 'no-attrs', 'nlri' if nlri else 'no-nlri', 'withdraw' if wd else 'no-withdraw', 'ibgp' if ibgp else 'ebgp')
+        cls = cls + ('first-session' if idx % 3 else 'after-session-flap',)
         classes.add(cls + (isinstance(js, dict) and js.get('status'),))
         label = '/'.join(cls)
         ok = st == 200 and isinstance(js, dict) and js.get('status') is True
